@@ -197,11 +197,12 @@ def eval_subscribed(run, model, rule):
     f = fab.methods.get('subscribed')
     if f is None or len(f.params) < 4:
         return False
-    regs = {}
-    init = fab.methods.get('__init__')
-    for n in _ast.walk(f.node):
-        if isinstance(n, _ast.Attribute) and isinstance(n.value, _ast.Name) and n.value.id == f.params[0] and n.attr.endswith('_subscriptions'):
-            regs[n.attr.split('_')[0]] = n.attr
+    # the registries per kind are those subscribe() writes (resolved by dataflow in wiring()), not whatever subscribed() happens to mention
+    try:
+        w_ = wiring(model)
+        regs = dict(w_.registry)
+    except AnalysisError:
+        return False
     if set(regs) != {'fifo', 'lifo'}:
         return False
 
